@@ -82,6 +82,40 @@ def report_live_bad(chk, res, flat):
                            "logical_trace_prefix": [json.loads(x) for x in pre if '"Observed"' not in x and '"Recovered"' not in x][-80:]})
 
 
+W_CFG = """CONSTANTS
+  Waiters = {1, 2, 3}
+  MaxT = %d
+  MaxWaiting = 2
+  MaxOps = %d
+  EmitDepth = %d
+SPECIFICATION Spec
+INVARIANTS %s
+%s
+CHECK_DEADLOCK FALSE
+"""
+
+
+def run_watchers(chk, wd, thorough):
+    """embedded/watchers (the wait/notify hub every commit acknowledgement goes through): spec/Watchers.tla model-checked and its
+    behaviours replayed on the real hub with one goroutine per WaitFor call."""
+    mc = vlib.run_tlc("Watchers", "w.cfg", workers=6, timeout=1200,
+                      files=[("w.cfg", W_CFG % (3, 8 if thorough else 7, 0, "NoLostWakeup WithinLimit", "PROPERTIES OkMeansDone\nVIEW View"))], tag="C02w")
+    vlib.tlc_must_pass(mc, "Watchers")
+    chk.add_tlc(mc, "Watchers (wait/notify hub)")
+    num = 1500 if thorough else 250
+    sm = vlib.run_tlc("Watchers", "w.cfg", workers=1, timeout=900, extra=["-simulate", "num=%d" % num, "-depth", "14", "-seed", str(chk.seed)],
+                      files=[("w.cfg", W_CFG % (4, 12, 12, "Emit", ""))], tag="C02w")
+    if sm.error or sm.violation:
+        raise MachineryFault("Watchers simulation: %s %s" % (sm.error, sm.violation))
+    bs = vlib.printed_json(sm.out)
+    if len(bs) < num // 2:
+        raise MachineryFault("Watchers simulation printed only %d behaviours" % len(bs))
+    bp = os.path.join(wd, "watchers.json")
+    json.dump({"maxWaiting": 2, "behaviours": bs}, open(bp, "w"))
+    out, _ = vlib.run_harness(vlib.go_build("x01"), ["-behaviours", bp], timeout=900)
+    vlib.absorb(chk, json.loads(out))
+
+
 def run(chk, args):
     thorough = chk.tier == "thorough"
     wd = vlib.scratch("C02")
@@ -152,6 +186,7 @@ def run(chk, args):
         if ok_d or ok_c:
             raise MachineryFault("binding self-test failed: dropped-hook accepted=%s corrupted-field accepted=%s" % (ok_d, ok_c))
         chk.cov["binding_selftest"] = "trace without one TxLogSynced event rejected; trace with one altered Observed.alh rejected"
+    run_watchers(chk, wd, thorough)
     chk.cov["rule"] = ("one trace per driver run (configuration class rotates with the run index: synced/unsynced, external allowance, embedded values, "
                        "prealloc, header version, IO concurrency, file size, max active txs, write-buffer size); distinct = runs")
     chk.assumptions += ["hook events are emitted under the lock protecting the state they describe (embedded/verifhook call sites)",
